@@ -210,6 +210,7 @@ func runC19(r *Run, verifDir string) {
 	r.Rule("C19.W3", "order: stage k gets the continuation for k+1, core runs iff position >= len(chain), first position is 0, registration appends in order", 6)
 	r.Rule("C19.W4", "the middleware slices are written only by registration functions and constructors", 3)
 	r.Rule("C19.W5", "an invocation of a continuation runs the remainder of the chain exactly once on every path", 3)
+	r.Rule("C19.W6", "a continuation returns the results of the stage or core handler it ran, unchanged", 3)
 	folds := findFoldChains(r)
 	if len(chains)+folds < 3 {
 		r.Unk("C19.W1", "chains", token.NoPos, "%d middleware continuations found; 3 confirmed on the pinned tree", len(chains)+folds)
@@ -512,6 +513,50 @@ func runC19(r *Run, verifDir string) {
 				r.Bad("C19.W5", key, badPos, "the continuation %s can return after running the remainder of the chain %d time(s) instead of once (a path to a return that does not go through exactly one stage or core call): a middleware's call of next then does not execute the inner stages and the core handler the number of times it asked for", key, badN)
 			default:
 				r.OK("C19.W5", key, c.k.Pos(), "%d path(s), each through exactly one stage or core call", len(paths))
+			}
+		}
+		// ---- W6: what the remainder of the chain returned is what the continuation returns — each result of every
+		// return is the corresponding result of the stage or core call (possibly merged by a phi)
+		{
+			var passes func(v ssa.Value, i int, d int) bool
+			passes = func(v ssa.Value, i int, d int) bool {
+				if d > 4 {
+					return false
+				}
+				switch x := v.(type) {
+				case *ssa.Extract:
+					return x.Index == i && (x.Tuple == ssa.Value(c.stage) || (c.core != nil && x.Tuple == ssa.Value(c.core)))
+				case *ssa.Call:
+					// single-result chains
+					return i == 0 && (x == c.stage || x == c.core)
+				case *ssa.Phi:
+					for _, e := range x.Edges {
+						if !passes(e, i, d+1) {
+							return false
+						}
+					}
+					return true
+				}
+				return false
+			}
+			bad := token.NoPos
+			nRet := 0
+			for _, b := range c.k.Blocks {
+				ret, ok := b.Instrs[len(b.Instrs)-1].(*ssa.Return)
+				if !ok {
+					continue
+				}
+				nRet++
+				for i, res := range ret.Results {
+					if !passes(res, i, 0) {
+						bad = ret.Pos()
+					}
+				}
+			}
+			if bad.IsValid() {
+				r.Bad("C19.W6", key, bad, "the continuation %s does not return the results of the stage (or core handler) it ran as they are: a response returned together with an error, or an error replaced on the way out, never reaches the middleware that called next — predecessors no longer observe what their successor returned", key)
+			} else if nRet > 0 {
+				r.OK("C19.W6", key, c.k.Pos(), "%d return(s), each handing back the stage's / core handler's own results", nRet)
 			}
 		}
 		// first position is 0
